@@ -146,6 +146,9 @@ def suite_algo_switch(ctx):
     for _ in range(ctx.n(150, 3000)):
         client, conn = cl.make_client(cl.Cfg(exc=tuple(rng.random() < 0.7 for _ in range(3))), extra={'security_algo': None, 'security_algo_params': None})
         hist_desc = []
+        same = rng.random() < 0.5           # the ECU hands out the same seed for the same level again (a fixed-seed ECU): nothing computed earlier may be reused
+        fixed_level = rng.choice([1, 2, 3, 0x10, 0x7D, 0x7E])
+        fixed_seed = bytes(rng.randrange(1, 256) for _ in range(rng.choice([1, 4, 8])))
         for step in range(rng.randrange(2, 6)):
             sig = rng.choice(['s', 'sl', 'sp', 'slp', 'obj'])
             tag = bytes([0x41 + step])
@@ -160,11 +163,13 @@ def suite_algo_switch(ctx):
                 how_set = 'set_configs'
             level = rng.choice([1, 2, 3, 0x10, 0x7D, 0x7E])
             seed = bytes(rng.randrange(1, 256) for _ in range(rng.choice([1, 4, 8])))
+            if same:
+                level, seed = fixed_level, fixed_seed
             conn.responder = lambda p, seed=seed: [(1, bytes([0x67, p[1]]) + (seed if p[1] % 2 == 1 else b''))]
             del calls[:]
             how, verdict, flags, payload, e, r = cl.observe_outer(conn, lambda: client.unlock_security_access(level))
             sends = [o[1] for o in conn.log if o[0] == 'send']
-            hist_desc.append('%s:%s level=%d via %s' % (sig, tag.decode(), level, how_set))
+            hist_desc.append('%s:%s level=%d seed=%s via %s' % (sig, tag.decode(), level, seed.hex(), how_set))
             k = (level + 1) // 2
             want = [bytes([0x27, 2 * k - 1]), bytes([0x27, 2 * k]) + tag + seed]
             s.evaluations += 1
